@@ -199,7 +199,7 @@ theorem lastIndexOfTrue_spec (b : Bitfield) (pos : Nat) :
 def Small (a : Abs) : Prop := a.blocks.size < 2 ^ 64 ∧ totalBytes a.blocks < 2 ^ 64
 
 structure Rep (C : Crypto) (c : Core) (d : Disk) (a : Abs) : Prop where
-  writer : c.secret.isSome = true
+  writer : c.secret.isSome = a.writable
   tree : RootsOK C a.blocks c.tree.changeset
   nodes : NodesOK C a.blocks c.tree d.tree
   mapwf : MapWF c.tree.unflushed
@@ -258,7 +258,8 @@ theorem maybeFlush_keeps (C : Crypto) (hC : HashWF C) (bs : Array Bytes) (c : Co
 
 /-- what one logged entry is, relative to the abstract log before and after it -/
 inductive EntryStep (C : Crypto) : Abs → Entry → Abs → Prop
-  | append (a : Abs) (batch : List Bytes) (nodes : List Node) (sig : Bytes) (fk : Nat) (hne : batch ≠ []) (hsig : sig.length = 64)
+  | append (a : Abs) (batch : List Bytes) (nodes : List Node) (sig : Bytes) (fk : Nat) (hne : batch ≠ []) (hw : a.writable = true)
+      (hsig : sig.length = 64)
       (sound : ∀ n ∈ nodes, ∃ d o, n = nodeAt C (a.blocks ++ batch.toArray) d o ∧ (o + 1) * 2 ^ d ≤ a.blocks.size + batch.length)
       (compl : ∀ d o, a.blocks.size < (o + 1) * 2 ^ d → (o + 1) * 2 ^ d ≤ a.blocks.size + batch.length →
         nodeAt C (a.blocks ++ batch.toArray) d o ∈ nodes)
@@ -346,7 +347,7 @@ theorem info_refines (C : Crypto) (c : Core) (d : Disk) (a : Abs) (h : Rep C c d
     · exact heq
     · have := c1 m hgt
       rw [h.bits, hm_false] at this; cases this
-  have hw : c.secret.isSome = true := h.writer
+  have hw : c.secret.isSome = a.writable := h.writer
   simp [stepC, Abs.step, Core.info, hlen, hbytes, hcl, hw]
 
 /-- the flush decision at the end of a mutating call keeps `Rep` -/
@@ -360,6 +361,80 @@ theorem maybeFlush_rep (C : Crypto) (hC : HashWF C) (c : Core) (d : Disk) (a : A
   · rw [k5]; exact ⟨fun i hi => by rw [k4]; exact h.contig.1 i hi, by rw [k4]; exact h.contig.2⟩
   · rw [k7]; exact h.data
 
+
+/-- what a flush (either kind) preserves -/
+theorem flushAll_keeps (C : Crypto) (hC : HashWF C) (bs : Array Bytes) (c : Core) (d : Disk) (ct : Bool)
+    (hN : NodesOK C bs c.tree d.tree) (hwf : MapWF c.tree.unflushed) :
+    (c.flushAll ct).1.tree.changeset = c.tree.changeset ∧ NodesOK C bs (c.flushAll ct).1.tree (d.applyAll (c.flushAll ct).2).tree
+      ∧ MapWF (c.flushAll ct).1.tree.unflushed
+      ∧ (∀ i, (c.flushAll ct).1.bitfield.get i = c.bitfield.get i) ∧ (c.flushAll ct).1.header = c.header
+      ∧ (c.flushAll ct).1.secret = c.secret ∧ (d.applyAll (c.flushAll ct).2).data = d.data := by
+  simp only [Core.flushAll]
+  obtain ⟨f1, f2, f3⟩ := nodesOK_flush C hC bs c.tree (d.applyAll c.bitfield.flush.2) hwf
+    (by rw [tree_of_applyAll _ _ (fun op hop => by rw [Journal.bitfieldFlush_store _ op hop]; decide)]; exact hN)
+  have e1 : d.applyAll (c.bitfield.flush.2 ++ c.tree.flush.2 ++ (Oplog.flush c.oplog c.header ct).2)
+      = ((d.applyAll c.bitfield.flush.2).applyAll c.tree.flush.2).applyAll (Oplog.flush c.oplog c.header ct).2 := by
+    rw [Journal.applyAll_append, Journal.applyAll_append]
+  refine ⟨?_, ?_, ?_, ?_, ?_, ?_, ?_⟩
+  · simp [Tree.flush, Tree.changeset]
+  · rw [e1, tree_of_applyAll _ _ (fun op hop => by rw [Journal.oplogFlush_store _ _ _ op hop]; decide)]
+    exact f1
+  · exact f2
+  · intro i; simp [Bitfield.flush, Bitfield.get]
+  · trivial
+  · trivial
+  · rw [e1, data_of_applyAll _ _ (fun op hop => by rw [Journal.oplogFlush_store _ _ _ op hop]; decide), f3,
+      data_of_applyAll _ _ (fun op hop => by rw [Journal.bitfieldFlush_store _ op hop]; decide)]
+
+/-- dropping the secret: the core represents the same log, read-only -/
+theorem rep_drop_secret (C : Crypto) (c : Core) (d : Disk) (a : Abs) (h : Rep C c d a) :
+    Rep C { c with secret := none, header := { c.header with secret := none } } d { a with writable := false } :=
+  { writer := rfl
+    tree := h.tree
+    nodes := h.nodes
+    mapwf := h.mapwf
+    bits := h.bits
+    heldLt := h.heldLt
+    contig := h.contig
+    data := h.data
+    small := h.small }
+
+/-- `make_read_only`: answers whether it changed anything; the core then represents the same log, read-only -/
+theorem makeReadOnly_refines (C : Crypto) (hC : HashWF C) (c : Core) (d : Disk) (a : Abs) (h : Rep C c d a) :
+    (stepC C (c, d) .makeReadOnly).2 = (a.step .makeReadOnly).2
+      ∧ Rep C (stepC C (c, d) .makeReadOnly).1.1 (stepC C (c, d) .makeReadOnly).1.2 (a.step .makeReadOnly).1 := by
+  by_cases hw : a.writable = true
+  · have hsome : c.secret.isSome = true := by rw [h.writer]; exact hw
+    generalize hc1 : ({ c with secret := none, header := { c.header with secret := none } } : Core) = c1
+    have hstep : stepC C (c, d) .makeReadOnly = (((c1.flushAll true).1, d.applyAll (c1.flushAll true).2), Obs.readOnly true) := by
+      simp only [stepC, Core.makeReadOnly, hsome, ite_true, hc1, obsOf]
+    have habs : a.step .makeReadOnly = ({ a with writable := false }, Obs.readOnly true) := by simp [Abs.step, hw]
+    have c1t : c1.tree = c.tree := by rw [← hc1]
+    have c1b : c1.bitfield = c.bitfield := by rw [← hc1]
+    have c1s : c1.secret = none := by rw [← hc1]
+    have c1h : c1.header.contiguous = c.header.contiguous := by rw [← hc1]
+    obtain ⟨k1, k2, k3, k4, k5, k6, k7⟩ := flushAll_keeps C hC a.blocks c1 d true (by rw [c1t]; exact h.nodes) (by rw [c1t]; exact h.mapwf)
+    rw [hstep, habs]
+    refine ⟨rfl, ?_⟩
+    exact {
+      writer := by show (c1.flushAll true).1.secret.isSome = false; rw [k6, c1s]; rfl
+      tree := by show RootsOK C a.blocks _; rw [k1, c1t]; exact h.tree
+      nodes := k2
+      mapwf := k3
+      bits := by intro i; rw [k4, c1b]; exact h.bits i
+      heldLt := h.heldLt
+      contig := by
+        rw [k5, c1h]
+        exact ⟨fun i hi => by rw [k4, c1b]; exact h.contig.1 i hi, by rw [k4, c1b]; exact h.contig.2⟩
+      data := by rw [k7]; exact h.data
+      small := h.small }
+  · have hwf : a.writable = false := by simpa using hw
+    have hnone : c.secret.isSome = false := by rw [h.writer]; exact hwf
+    have hstep : stepC C (c, d) .makeReadOnly = ((c, d), Obs.readOnly false) := by
+      simp [stepC, Core.makeReadOnly, hnone, obsOf, Disk.applyAll]
+    have habs : a.step .makeReadOnly = (a, Obs.readOnly false) := by simp [Abs.step, hwf]
+    rw [hstep, habs]
+    exact ⟨rfl, h⟩
 
 /-! ### clear -/
 
@@ -685,7 +760,7 @@ def SignWF (C : Crypto) : Prop := ∀ seed msg, (C.sign seed msg).length = 64
 /-- a non-empty `append_batch` up to its flush decision: the state `c1`, the journal `j01` (data write and
     oplog entry), the logged entry -/
 theorem append_shape (C : Crypto) (hC : HashWF C) (c : Core) (d : Disk) (a : Abs) (h : Rep C c d a)
-    (batch : List Bytes) (hne : batch ≠ []) (hv : Valid a (.append batch)) :
+    (batch : List Bytes) (hne : batch ≠ []) (hv : Valid a (.append batch)) (hw : a.writable = true) :
     ∃ (c1 : Core) (j01 : List SOp) (entry : Entry),
       stepC C (c, d) (.append batch) = ((c1.maybeFlush.1, d.applyAll (j01 ++ c1.maybeFlush.2)),
         Obs.appended c1.maybeFlush.1.tree.length c1.maybeFlush.1.tree.byteLength)
@@ -705,7 +780,7 @@ theorem append_shape (C : Crypto) (hC : HashWF C) (c : Core) (d : Disk) (a : Abs
       ∧ (c.appendBatch C batch).journal = j01 ++ c1.maybeFlush.2
       ∧ j01 = [SOp.write .data (totalBytes a.blocks) batch.flatten,
                SOp.write .oplog (Spec.entriesOffset + c.oplog.entriesByteLength) (frame (encEntry entry) c.oplog.currentBit false)] := by
-  obtain ⟨seed, hseed⟩ : ∃ seed, c.secret = some seed := Option.isSome_iff_exists.mp h.writer
+  obtain ⟨seed, hseed⟩ : ∃ seed, c.secret = some seed := Option.isSome_iff_exists.mp (by rw [h.writer]; exact hw)
   have hlen : c.tree.length = a.blocks.size := h.tree.length
   have hbytes : c.tree.byteLength = totalBytes a.blocks := h.tree.bytes
   have hemp : ¬ batch.isEmpty = true := by cases batch with | nil => exact absurd rfl hne | cons _ _ => simp
@@ -714,8 +789,8 @@ theorem append_shape (C : Crypto) (hC : HashWF C) (c : Core) (d : Disk) (a : Abs
   let n := a.blocks.size
   let bs' := a.blocks ++ batch.toArray
   let held' : Nat → Bool := fun i => a.held i || (decide (n ≤ i) && decide (i < n + batch.length))
-  have habs : a.step (.append batch) = ({ blocks := bs', held := held' }, Obs.appended bs'.size (totalBytes bs')) := by
-    simp only [Abs.step, hemp]; rfl
+  have habs : a.step (.append batch) = ({ a with blocks := bs', held := held' }, Obs.appended bs'.size (totalBytes bs')) := by
+    simp only [Abs.step, hemp, hw, Bool.true_eq_false, ite_false]; rfl
   have hsize' : bs'.size = n + batch.length := by simp [bs', n]
   -- the changeset
   generalize hcs0 : batch.foldl (Tree.append C) c.tree.changeset = cs0
@@ -933,7 +1008,7 @@ theorem append_shape (C : Crypto) (hC : HashWF C) (c : Core) (d : Disk) (a : Abs
   · rw [c1bf, ← hbf]
   · intro hS
     rw [habs, hentry]
-    have := EntryStep.append (C := C) a batch cs0.nodes sig c.tree.fork hne (hsiglen hS)
+    have := EntryStep.append (C := C) a batch cs0.nodes sig c.tree.fork hne hw (hsiglen hS)
       (fun x hx => sound x ((hadded x).mp hx)) (fun dd o h1 h2 => (hadded _).mpr (compl dd o h1 h2)) hcount
     rw [habs] at this
     exact this
@@ -985,20 +1060,33 @@ theorem append_refines (C : Crypto) (hC : HashWF C) (c : Core) (d : Disk) (a : A
     (hv : Valid a (.append batch)) :
     (stepC C (c, d) (.append batch)).2 = (a.step (.append batch)).2
       ∧ Rep C (stepC C (c, d) (.append batch)).1.1 (stepC C (c, d) (.append batch)).1.2 (a.step (.append batch)).1 := by
-  obtain ⟨seed, hseed⟩ : ∃ seed, c.secret = some seed := Option.isSome_iff_exists.mp h.writer
+  by_cases hw : a.writable = true
+  swap
+  · -- a read-only core refuses
+    have hwf : a.writable = false := by simpa using hw
+    have hsec : c.secret = none := by
+      have := h.writer; rw [hwf] at this
+      cases hs : c.secret with
+      | none => rfl
+      | some x => rw [hs] at this; simp at this
+    have e1 : stepC C (c, d) (.append batch) = ((c, d), Obs.failed .err) := by
+      simp [stepC, Core.appendBatch, hsec, obsOf, Disk.applyAll]
+    have e2 : a.step (.append batch) = (a, Obs.failed .err) := by simp [Abs.step, hwf]
+    rw [e1, e2]; exact ⟨rfl, h⟩
+  obtain ⟨seed, hseed⟩ : ∃ seed, c.secret = some seed := Option.isSome_iff_exists.mp (by rw [h.writer]; exact hw)
   have hlen : c.tree.length = a.blocks.size := h.tree.length
   have hbytes : c.tree.byteLength = totalBytes a.blocks := h.tree.bytes
   by_cases hemp : batch.isEmpty = true
   · have e1 : stepC C (c, d) (.append batch) = ((c, d), Obs.appended a.blocks.size (totalBytes a.blocks)) := by
       simp [stepC, Core.appendBatch, hseed, hemp, obsOf, Disk.applyAll, hlen, hbytes]
-    have e2 : a.step (.append batch) = (a, Obs.appended a.blocks.size (totalBytes a.blocks)) := by simp [Abs.step, hemp]
+    have e2 : a.step (.append batch) = (a, Obs.appended a.blocks.size (totalBytes a.blocks)) := by simp [Abs.step, hemp, hw]
     rw [e1, e2]; exact ⟨rfl, h⟩
   have hne : batch ≠ [] := by intro e; apply hemp; simp [e]
-  obtain ⟨c1, j01, entry, hstep, hrep, _⟩ := append_shape C hC c d a h batch hne hv
+  obtain ⟨c1, j01, entry, hstep, hrep, _⟩ := append_shape C hC c d a h batch hne hv hw
   have hfl := maybeFlush_rep C hC c1 (d.applyAll j01) _ hrep
   rw [hstep]
   have habs : (a.step (.append batch)).2 = Obs.appended (a.step (.append batch)).1.blocks.size (totalBytes (a.step (.append batch)).1.blocks) := by
-    simp only [Abs.step, hemp]; rfl
+    simp only [Abs.step, hemp, hw, Bool.true_eq_false, ite_false]; rfl
   refine ⟨?_, ?_⟩
   · have l1 : c1.maybeFlush.1.tree.length = (a.step (.append batch)).1.blocks.size := hfl.tree.length
     have l2 : c1.maybeFlush.1.tree.byteLength = totalBytes (a.step (.append batch)).1.blocks := hfl.tree.bytes
